@@ -118,6 +118,12 @@ func UnpackRule(rule []string) (map[string]string, error) {
 
 		}
 
+		// WITH must be followed by the type of the destination artifacts
+		if dstType != "materials" && dstType != "products" {
+			return nil,
+				fmt.Errorf("%s Got:\n\t %s", errorMsg, rule)
+		}
+
 		return map[string]string{
 			"type":      ruleLower[0],
 			"pattern":   rule[1],
